@@ -184,6 +184,9 @@ pub struct Finding {
     pub what: String,
     #[serde(default)]
     pub commit: String,
+    /// explicit list of failing cases (process-stratum findings are identified case by case)
+    #[serde(default)]
+    pub cases: Vec<String>,
 }
 
 #[derive(Clone, Debug, Default, Serialize, serde::Deserialize)]
